@@ -83,6 +83,29 @@ theorem csvdump_write_program (ver : UInt8) (start last : Nat) (bs : List CB.EBl
     ON.content 3 (Run.csvWrites ver bs) = (bs.flatMap fun b => (Csv.rows ver b.size b.height b.blk).2.2.2).flatMap Run.lineBytes :=
   Run.csv_content ver start last bs
 
+/-- **composition.**  Run the four-writer machine on the write program of csvdump over the delivered blocks `bs`, with any
+    buffer capacity and any per-file byte budgets.  If it reports success then every file carries its final name and, for
+    every `i < 4`, the bytes on disk are exactly the lines of the `i`-th csv file of the whole-program model (`Run.csvFiles`,
+    what C01 specifies), each followed by a newline, with nothing left in a buffer; if it reports a failure no file was renamed -/
+theorem csvdump_disk_is_model_files (ver : UInt8) (start last : Nat) (bs : List CB.EBlock) (cap : Nat) (budget : Nat → Nat) :
+    let s := ON.exec (ON.init cap budget) (ON.prog 4 (Run.csvWrites ver bs))
+    (s.ok = true → ∀ i, i < 4 → s.renamed i = true ∧ (s.ws i).buf = [] ∧
+      ((Run.csvFiles ver start last bs)[i]?).map (fun (f : String × List String) => f.2.flatMap Run.lineBytes) = some (s.ws i).disk) ∧
+    (s.ok = false → ∀ i, s.renamed i = false) := by
+  intro s
+  have hf := ON.final_n 4 cap budget (Run.csvWrites ver bs)
+  have hc := Run.csv_content ver start last bs
+  refine ⟨fun hok i hi => ?_, hf.2⟩
+  obtain ⟨hr, hd, hb⟩ := hf.1 hok i hi
+  refine ⟨hr, hb, ?_⟩
+  rw [hd]
+  obtain ⟨h0, c0, c1, c2, c3⟩ := hc
+  match i, hi with
+  | 0, _ => rw [c0]; simp [Run.csvFiles, Function.comp_def, List.flatMap_map]
+  | 1, _ => rw [c1]; simp [Run.csvFiles, Function.comp_def, List.flatMap_map]
+  | 2, _ => rw [c2]; simp [Run.csvFiles, Function.comp_def, List.flatMap_map]
+  | 3, _ => rw [c3]; simp [Run.csvFiles, Function.comp_def, List.flatMap_map]
+
 /-- non-vacuity: two files, the second one's final flush fails: nothing is renamed, not even the first file -/
 example : (ON.exec (ON.init 10 (fun i => if i = 0 then 100 else 2)) (ON.prog 2 [(0, bytes 3), (1, bytes 3)])).ok = false ∧
     (ON.exec (ON.init 10 (fun i => if i = 0 then 100 else 2)) (ON.prog 2 [(0, bytes 3), (1, bytes 3)])).renamed 0 = false := by decide
